@@ -311,3 +311,39 @@ def judge(got, band, reltol, absfloor=0.0):
     return "off by %s (rel %s), allowed %s beyond the band [%s, %s]" % (
         mpmath.nstr(d, 3), mpmath.nstr(d / abs(ref), 3) if ref != 0 and mpmath.isfinite(ref) else "-", mpmath.nstr(tol, 3),
         mpmath.nstr(lo, 17), mpmath.nstr(hi, 17))
+
+
+# ------------------------------------------------------------------------------------------------
+# mixtures: hyperexponential (components exp(mu, lambda_k)) and mixGEV (components gev(mu_k, lambda_k, alpha_k))
+# ------------------------------------------------------------------------------------------------
+def _lse(terms):
+    terms = [t for t in terms if t != -INF]
+    if not terms:
+        return -INF
+    if any(t == INF for t in terms):
+        return INF
+    m = max(terms)
+    return m + mpmath.log(sum(mpmath.exp(t - m) if t - m > -1e5 else ZERO for t in terms))
+
+
+def mix_reference(x, comps):
+    """comps = [(q, fam, [params...])]; returns {which: (ref, lo, hi)} for pdf, logpdf, cdf, logcdf, surv, logsurv at x,
+       the band being the same convex combination of the components' bands (all six are monotone in each component)."""
+    key = ("mix", bits(x), tuple((bits(q), fam, tuple(bits(v) for v in par)) for q, fam, par in comps))
+    if key in _CACHE:
+        return _CACHE[key]
+    parts = [(mpf(q), reference_all(fam, "x", [x] + list(par))) for q, fam, par in comps if q != 0]
+    out = {}
+    for w in ("pdf", "cdf", "surv"):
+        out[w] = tuple(sum((q * r[w][i] for q, r in parts), ZERO) for i in range(3))
+        lw = "log" + w
+        out[lw] = tuple(_lse([_log(q) + r[lw][i] for q, r in parts]) for i in range(3))
+    _CACHE[key] = out
+    return out
+
+
+def quantile_ok(xr, p, cdf_band, d, slack=1e-9):
+    """is xr an acceptable answer of a bisection inverse: cdf(xr - d) - slack <= p <= cdf(xr + d) + slack"""
+    lo = cdf_band(xr - d)[1]
+    hi = cdf_band(xr + d)[2]
+    return lo - slack <= p <= hi + slack, lo, hi
